@@ -68,6 +68,17 @@ type SimConn struct {
 	EmptyReads int
 	Started    bool
 	lastAlloc  uint64
+
+	// duplex mode (a real client goroutine on the other end, engine E2)
+	duplex    bool
+	c2s       []byte
+	c2sClosed bool
+	s2cRead   int
+	TapC2S    []byte
+	SSLAnswer byte
+	TLSUp     bool
+	Plain     []byte // what the TLS client decrypted
+	ClientEvents []Event
 }
 
 func newSimConn(rt *Runtime, id int, cc *ConnCase) *SimConn {
@@ -134,6 +145,9 @@ func readAllocBytes() uint64 {
 // Read implements net.Conn. A Read that finds no pending input is the exact
 // definition of quiescence: the server consumed everything it was given.
 func (c *SimConn) Read(p []byte) (int, error) {
+	if c.duplex {
+		return c.duplexRead(p)
+	}
 	c.rt.K.Yield(c.task, "read")
 	c.Started = true
 	c.ops++
